@@ -22,16 +22,16 @@ theorem canCreate_iff (s : State) (h : Inv s) :
     · rename_i hneg; simp at hneg; omega
     · simp; omega
 
-theorem acquire_isOk (s : State) (f : Bool) :
+theorem acquire_isOk (s : State) (f : Dial) :
     (acquire s f).2.isOk =
-      if s.idle.isEmpty then (!f && (match s.kind with
+      if s.idle.isEmpty then (!f.fails && (match s.kind with
         | .h1 => h1CanNew s.maxConn (s.total + h1NewDelta) | .pp => ppCanNew s.maxConn s.total))
       else !(match s.kind with
         | .h1 => h1ReuseRefused s.maxConn s.total s.idle.length | .pp => ppReuseRefused s.maxConn s.total s.idle.length) := by
   obtain ⟨kind, maxConn, maxReq, total, idle, nClients, client, nStreams, stream, reqCur, ext⟩ := s
-  cases kind <;> cases f <;> simp only [acquire] <;> (repeat' split) <;> simp_all [Res.isOk]
+  cases kind <;> cases f <;> simp only [acquire, Dial.fails] <;> (repeat' split) <;> simp_all [Res.isOk]
 
-theorem newStream_isOk (s : State) (f : Bool) :
+theorem newStream_isOk (s : State) (f : Dial) :
     (newStream s f).2.isOk = (canCreate s.maxReq s.reqCur && (acquire s f).2.isOk) := by
   unfold newStream
   rw [breakerFirst_eq]
@@ -46,10 +46,10 @@ theorem newStream_isOk (s : State) (f : Bool) :
 /-- **capacity is a function of the truth**: `NewStream` grants a lease exactly when the requests breaker has room
 and fewer than `maxConn` connections are really in use (and a connection can be had: an idle one, or a connect that
 succeeds). -/
-theorem granted_iff (s : State) (h : Inv s) (f : Bool) :
+theorem granted_iff (s : State) (h : Inv s) (f : Dial) :
     (newStream s f).2.isOk = true ↔
       ((s.maxReq = 0 ∨ s.ext + s.liveCount < s.maxReq) ∧ (s.maxConn = 0 ∨ s.liveCount < s.maxConn) ∧
-       (f = false ∨ s.idle ≠ [])) := by
+       (f.fails = false ∨ s.idle ≠ [])) := by
   have hb := h.books
   rw [newStream_isOk, Bool.and_eq_true, canCreate_iff s h, acquire_isOk]
   have hlen : s.idle.isEmpty = true ↔ s.idle.length = 0 := by simp [List.isEmpty_iff]
@@ -63,11 +63,11 @@ theorem granted_iff (s : State) (h : Inv s) (f : Bool) :
     simp only [this, if_true]
     have e1 : h1NewDelta = 1 := rfl
     rw [e1]
-    cases s.kind <;> cases f <;> simp [h1CanNew, ppCanNew, hn] <;> omega
+    cases s.kind <;> cases f <;> simp [h1CanNew, ppCanNew, hn, Dial.fails] <;> omega
   · have : s.idle.isEmpty = false := by cases hx : s.idle.isEmpty; rfl; exact absurd (hlen.mp hx) hn
     simp only [this, Bool.false_eq_true, if_false]
     cases s.kind <;> cases f <;>
-      simp [h1ReuseRefused, ppReuseRefused, hn] <;> omega
+      simp [h1ReuseRefused, ppReuseRefused, hn, Dial.fails] <;> omega
 
 
 /-! ### the observation of a model state satisfies the executable predicate -/
@@ -189,11 +189,11 @@ theorem obsSpec_holds (s : State) (h : Inv s) : obsSpec s.maxReq s.ext (obsOf s)
     · have ⟨f1, f2, f3⟩ := h.liveFresh i hi hl
       refine ⟨⟨⟨by omega, by omega⟩, by simp [f2]⟩, Or.inl f1⟩
 
-theorem newStream_refused (s : State) (f : Bool) (h : (newStream s f).2.isOk = false) : (newStream s f).1 = s := by
+theorem newStream_refused (s : State) (f : Dial) (h : (newStream s f).2.isOk = false) : (newStream s f).1 = s := by
   rcases newStream_cases s f with e | e | e | ⟨rest, c, _, e⟩ <;> rw [e] at h ⊢ <;> simp [Res.isOk] at h ⊢
 
-theorem newStreamSpec_holds (s : State) (h : Inv s) (f : Bool) :
-    newStreamSpec s.maxConn s.maxReq s.ext f (obsOf s) (newStream s f).2.isOk (obsOf (newStream s f).1) = true := by
+theorem newStreamSpec_holds (s : State) (h : Inv s) (f : Dial) :
+    newStreamSpec s.maxConn s.maxReq s.ext f.fails (obsOf s) (newStream s f).2.isOk (obsOf (newStream s f).1) = true := by
   have hlen : (obsOf s).liveConns.length = s.liveCount := by
     rw [liveConns_obsOf s h, List.length_map, length_liveIdx]
   have hg := granted_iff s h f
@@ -265,7 +265,7 @@ theorem foldClose_cfg (l : List Nat) (s : State) : SameCfg s (foldClose l s) := 
     simp only [foldClose, List.foldl_cons] at ih ⊢
     exact SameCfg.trans (netClose_cfg s c _) (ih _)
 
-theorem newStream_cfg (s : State) (f : Bool) : SameCfg s (newStream s f).1 := by
+theorem newStream_cfg (s : State) (f : Dial) : SameCfg s (newStream s f).1 := by
   rcases newStream_cases s f with e | e | e | ⟨rest, c, _, e⟩ <;> rw [e] <;> exact ⟨rfl, rfl, rfl⟩
 
 theorem step_cfg (s : State) (op : Op) : SameCfg s (step s op).1 := by
